@@ -13,12 +13,13 @@ class Inconclusive(Exception):
 
 
 class Item:
-    __slots__ = ('kind', 'name', 'header', 'body', 'parsed', 'line0', 'nice')
+    __slots__ = ('kind', 'name', 'header', 'body', 'parsed', 'line0', 'nice', 'impl_key')
 
     def __init__(self, kind, name, header, body, line0):
         self.kind, self.name, self.header, self.body, self.line0 = kind, name, header, body, line0
         self.parsed = None
         self.nice = None
+        self.impl_key = None
 
     def nlines(self):
         return len(self.body or []) + 1
@@ -355,6 +356,8 @@ class CrateIndex:
         self.impls = {}           # (Type, Trait|None, method) -> Item
         self.closure_items = {}   # '{closure@...}' -> Item
         self.smir_closures = {}   # (closure tag, dest local, occurrence) -> [operands]
+        self.fn_generics = {}     # fn simple name -> [type parameter names] (None when ambiguous)
+        self.impl_generics = {}   # impl key -> (impl type params, type pattern args)
         self._src = {}
         self._scan_sources()
         self._index_items()
@@ -377,6 +380,11 @@ class CrateIndex:
             # strip comments (line + block) conservatively
             t = re.sub(r'//[^\n]*', '', text)
             t = re.sub(r'/\*.*?\*/', '', t, flags=re.S)
+            for m in re.finditer(r'\bfn\s+([A-Za-z_][A-Za-z_0-9]*)\s*<([^>()]*(?:<[^<>]*>[^>()]*)*)>\s*\(', t):
+                ps = [q.split(':')[0].strip() for q in split_top(m.group(2))]
+                ps = [q for q in ps if q and not q.startswith("'") and not q.startswith('const ')]
+                if m.group(1) in self.fn_generics and self.fn_generics[m.group(1)] != ps: self.fn_generics[m.group(1)] = None
+                else: self.fn_generics[m.group(1)] = ps
             for m in re.finditer(r'\benum\s+([A-Za-z_][A-Za-z_0-9]*)\s*(?:<[^{]*>)?\s*\{', t):
                 name, i = m.group(1), m.end()
                 depth, j = 1, i
@@ -447,6 +455,7 @@ class CrateIndex:
         span = span.strip()
         if span.startswith('impl'):
             t = span[4:].strip()
+            iparams = []
             if t.startswith('<'):      # impl generics
                 depth = 0
                 for i, ch in enumerate(t):
@@ -454,6 +463,8 @@ class CrateIndex:
                     elif ch == '>' and t[i - 1] not in '-=':
                         depth -= 1
                         if depth == 0:
+                            iparams = [q.split(':')[0].strip() for q in split_top(t[1:i])]
+                            iparams = [q for q in iparams if q and not q.startswith("'")]
                             t = t[i + 1:].strip(); break
             t = t.split(' where ')[0].strip()
             parts = re.split(r'\s+for\s+', t)
@@ -461,8 +472,12 @@ class CrateIndex:
                 trait, ty = parts
             else:
                 trait, ty = None, parts[0]
+            targs = []
+            mm_ = re.match(r'^[^<]*<(.*)>\s*$', ty.strip())
+            if mm_: targs = [q for q in split_top(mm_.group(1)) if not q.startswith("'")]
+            self.impl_generics[(rel, l1, c1, l2, c2)] = (iparams, targs)
             tb = strip_generics(trait).strip().split('::')[-1] if trait else None
-            tyb = strip_generics(ty).strip().lstrip('&').strip().split('::')[-1]
+            tyb = re.sub(r"'[a-z_]+\s*", '', strip_generics(ty)).replace('mut ', '').strip().lstrip('&').strip().split('::')[-1]
             return tyb, tb, (trait or '').strip(), ty.strip()
         # derive attribute: span is the trait name; the type is the next struct/enum declaration
         tb = span.split('::')[-1]
@@ -489,6 +504,7 @@ class CrateIndex:
                 if info:
                     tyb, tb, trait_full, ty_full = info
                     self.impls.setdefault((tyb, tb, mm.group(6)), []).append((it, trait_full, ty_full))
+                    it.impl_key = key
                     it.nice = ('<%s as %s>::%s' % (ty_full, trait_full, mm.group(6))) if tb else '%s::%s' % (ty_full, mm.group(6))
 
     def _index_smir(self, text):
